@@ -119,6 +119,9 @@ package message
 //@   loop 0 invariant 0 <= sizeNormal && sizeNormal <= sizeExtended && sizeExtended <= i*2040
 //@   loop 0 invariant forall j int :: 0 <= j && j < i ==> specFieldAccepted(TT, j)
 //@   loop 0 modifies rw.fields[:]
+//@   loop 0 body-ensures [descriptor-of-the-field] rw.fields[i-1] != nil && rw.fields[i-1].index == i-1 &&
+//@              rw.fields[i-1].ftype == specWireType(TT, i-1) && rw.fields[i-1].isEnum == specIsEnumField(TT, i-1) &&
+//@              rw.fields[i-1].isExtension == specIsExtField(TT, i-1) && int(rw.fields[i-1].arrayLength) == specDescriptorCount(TT, i-1)
 
 // The comparator handed to sort.Slice (the second function literal of Initialize) IS the MAVLink ordering rule, for
 // every pair of descriptors of a struct whose extension fields are declared after its base fields.
